@@ -278,7 +278,7 @@ func runProperty(o checkOpts) ([]*funcResult, *Engine, []string, error) {
 				claimed[n] = true
 			}
 		}
-		const maxRetry = 12
+		const maxRetry = 60
 		n := 0
 		perFn := make([][]*Obligation, len(results))
 		for i, r := range results {
@@ -302,6 +302,29 @@ func runProperty(o checkOpts) ([]*funcResult, *Engine, []string, error) {
 					ob.Agree = nil
 				}
 				discharge(r.ctx.log, r.ctx.litPrelude(), perFn[i], dischargeOpts{dir: filepath.Join(dir, sanitize(r.ctx.fn)), timeoutS: 3 * o.timeoutS, focusedS: 12, agree: o.agree, workers: 2})
+			}
+			// third pass, one query at a time with six times the limits, for what is still undecided (heavy load)
+			left := 0
+			for i := range results {
+				var still []*Obligation
+				for _, ob := range perFn[i] {
+					if ob.Result == "unknown" || ob.Result == "timeout" {
+						still = append(still, ob)
+					}
+				}
+				perFn[i] = still
+				left += len(still)
+			}
+			if left > 0 && left <= 12 {
+				for i, r := range results {
+					if len(perFn[i]) == 0 {
+						continue
+					}
+					for _, ob := range perFn[i] {
+						ob.Agree = nil
+					}
+					discharge(r.ctx.log, r.ctx.litPrelude(), perFn[i], dischargeOpts{dir: filepath.Join(dir, sanitize(r.ctx.fn)), timeoutS: 6 * o.timeoutS, focusedS: 30, agree: o.agree, workers: 1})
+				}
 			}
 		}
 	}
